@@ -232,12 +232,12 @@ def parse_model_obs(text):
     return {'out': ''.join(l + '\n' for l in out), 'ending': ending, 'globals': glob}
 
 
-def spec_validation(ctx, progs, found_by):
+def spec_validation(ctx, progs, found_by, optimized=False):
     reqs, meta = [], []
     for ident, src in progs:
         try:
             with pyast.unlimited():
-                reqs.append('pycore.run 2000 ' + pyast.enc_module(ast.parse(src)))
+                reqs.append(('pycore.runO 2000 ' if optimized else 'pycore.run 2000 ') + pyast.enc_module(ast.parse(src)))
             meta.append((ident, src))
         except pyast.OutOfModel as e:
             ctx.bump('out_of_model', str(e))
@@ -249,7 +249,7 @@ def spec_validation(ctx, progs, found_by):
             ctx.add_broken('spec-validation', 'pycore.run:' + ident, 'driver answered %r for %r' % (ans[:100], src[:300]))
             continue
         model = parse_model_obs(sexp.dec_str(ans[3:]))
-        real = runobs.observe(src)
+        real = runobs.observe(src, optimize=1 if optimized else 0)
         real_globals = dict((k, v) for k, v in real['globals'].items() if v != 'function')
         ctx.bump('pycore_ending', (model['ending'] or '?').split(':')[0])
         if model['ending'] in ('stuck', 'timeout'):
@@ -264,7 +264,7 @@ def spec_validation(ctx, progs, found_by):
             agree += 1
             if real['out']:
                 ctx.mark_nontrivial('pycore|' + ident)
-    ctx.stage('spec-validation:' + found_by, cases=len(meta), agree=agree)
+    ctx.stage('spec-validation:' + found_by + (':-O' if optimized else ''), cases=len(meta), agree=agree)
     if meta:
         ctx.sample({'stage': 'spec-validation', 'id': meta[-1][0], 'source': meta[-1][1][:300]})
 
@@ -294,6 +294,7 @@ def core_option_sets(ctx, n_random):
 def run(ctx):
     core = [('core%d' % i, rungen.core_program(ctx.rng)) for i in range(ctx.scale(150, 3000))]
     spec_validation(ctx, core, 'generated')
+    spec_validation(ctx, core[:ctx.scale(80, 1500)], 'generated', optimized=True)      # `python -O` semantics (runO)
     c05.run_programs(ctx, core[:ctx.scale(40, 600)], core_option_sets(ctx, ctx.scale(2, 10)), 'pycore-programs')
     osets_all = option_subsets(ctx, ctx.scale(3, 24))
     differential(ctx, CORNERS, osets_all, 'corners')
